@@ -1541,16 +1541,19 @@ def check_timescale(c, method, scale):
         def exact(k):
             return (sl.expm(L * (tl[k] - tl[0])) @ rho0.reshape(-1, 1, order="F")).reshape(N, N, order="F")
     bad = []
+    errs = [float(np.linalg.norm(res.states[k].full() - exact(k))) for k in range(len(tl))]
     for k in range(len(tl)):
         ref = exact(k)
-        err = np.linalg.norm(res.states[k].full() - ref)
+        err = errs[k]
         tol = (1e-9 if kind == "se" else 2e-7) if method == "diag" else _htol(method, False, ref)
         if not err <= tol:
             bad.append(("state-vs-expm-at-output-time",
                         "%s, method %s, time scale %g: state at output %d (t=%.17g, step %.17g after "
-                        "step %.17g) differs from expm by %.2e"
+                        "step %.17g) differs from expm by %.2e; largest error over the %d output "
+                        "times %.2e"
                         % ("sesolve" if kind == "se" else "mesolve", method, scale, k, tl[k],
-                           tl[k] - tl[k - 1] if k else 0.0, tl[k - 1] - tl[k - 2] if k > 1 else 0.0, err)))
+                           tl[k] - tl[k - 1] if k else 0.0, tl[k - 1] - tl[k - 2] if k > 1 else 0.0, err,
+                           len(tl), max(errs))))
             break
     return bad
 
